@@ -137,6 +137,21 @@ GenSimple ==
      \* a same-scope re-declaration at another type, then a use that is only legal at the new type
      \/ /\ Has("redecl") /\ \E use \in {Bin("minus", Var("t"), Num(1)), Bin("lt", Var("t"), Num(1)), [k |-> "un", op |-> "neg", e |-> Var("t")]} :
              AddStmt([k |-> "block", id |-> id, b |-> <<Make(id + 500, "t", StrC(1)), Make(id + 501, "t", Num(2)), Shout(id + 502, use)>>])
+     \* a function whose only `return` is NESTED (bare block, if, loop, else, block in block) and a use of its result that is
+     \* only legal at the returned type: well-formed, whatever the checker infers about call results
+     \/ /\ Has("rettype") /\ n = 0 /\ \E nest \in {"block", "if", "loop", "else", "blockblock"}, ty \in {"str", "num", "arr"} :
+             LET val == CASE ty = "str" -> StrC(1) [] ty = "num" -> Num(3) [] ty = "arr" -> ArrE(<<Num(5)>>)
+                 ret == Ret(id + 503, val)
+                 tt == [k |-> "bool", v |-> TRUE]
+                 body == CASE nest = "block" -> <<[k |-> "block", id |-> id + 502, b |-> <<ret>>]>>
+                           [] nest = "if" -> <<[k |-> "if", id |-> id + 502, c |-> tt, t |-> <<ret>>, f |-> <<>>]>>
+                           [] nest = "loop" -> <<[k |-> "loop", id |-> id + 502, c |-> tt, b |-> <<ret>>]>>
+                           [] nest = "else" -> <<[k |-> "if", id |-> id + 502, c |-> [k |-> "bool", v |-> FALSE], t |-> <<Shout(id + 504, Num(1))>>, f |-> <<<<ret>>>>]>>
+                           [] nest = "blockblock" -> <<[k |-> "block", id |-> id + 502, b |-> <<[k |-> "block", id |-> id + 505, b |-> <<ret>>]>>]>>
+                 call == Call("lab", <<>>)
+                 use == CASE ty = "str" -> MCall(call, "len", <<>>) [] ty = "num" -> Bin("minus", call, Num(1)) [] ty = "arr" -> Idx(call, Num(0))
+             IN AddStmt([k |-> "block", id |-> id, b |-> <<[k |-> "def", id |-> id + 500, d |-> 10 * (id + 500), n |-> "lab", site |-> 0, ps |-> <<>>, pd |-> <<>>, psites |-> <<>>, b |-> body],
+                                                            Shout(id + 501, use)>>])
      \/ /\ Has("ret") /\ InFun /\ \E e \in Exprs(id) : AddStmt(Ret(id, e))
      \* arrays ("arr" = all of these, or the single productions "arr.make" "arr.copy" "arr.push" "arr.seti" "arr.shout")
      \/ /\ (Has("arr") \/ Has("arr.make")) /\ \E a \in ArrNames \cap P.names, e \in Exprs(id) : AddDecl(Make(id, a, ArrE(<<e>>)), a)
@@ -193,7 +208,7 @@ GenOpen ==
 \* ---------- C09: one violation of one static rule, injected at any position and nesting ----------
 \* (profiles with "inject"; `inj` remembers which rule was broken: the expected verdict)
 Bad(id, rule) ==
-  CASE rule = "undeclared-variable" -> {Shout(id, Var("zz")), Shout(id, Interp("zz")),
+  CASE rule = "undeclared-variable" -> {Shout(id, Var("zz")), Shout(id, Interp("zz")), Shout(id, Interp("zz9")), Shout(id, Interp("z_z")), Shout(id, Var("z9")),
                                         \* the initialiser of a `make` is resolved before its own name is declared
                                         Make(id, "zz", Var("zz")), Make(id, "zz", Bin("add", Var("zz"), Atom(id))), Make(id, "zz", Interp("zz"))}
                                        \cup {ExprS(id, Call(f, <<Var("zz")>>)) : f \in {g \in VisibleFuns : P.arity[g] = 1}}
